@@ -8,7 +8,6 @@ import (
 
 	"seehuhn.de/go/postscript/zzverifrt"
 
-	"verif/mc"
 )
 
 // sched is a cooperative scheduler for real goroutines: exactly one logical
@@ -17,8 +16,16 @@ import (
 // happens-before detector observes every hooked access, so an access pair that
 // is not ordered by lock hand-overs is reported in whatever interleaving it
 // occurs.
+// chooser is what the scheduler needs from the explorer (*mc.Ctx), or from a
+// fixed script in a cold-start child process.
+type chooser interface {
+	Choose(n int) int
+	Deviate(n int) int
+	Render() bool
+}
+
 type sched struct {
-	c       *mc.Ctx
+	c       chooser
 	threads []*thread
 	cur     int
 	owner   map[*zzverifrt.Mutex]int
@@ -55,7 +62,7 @@ type varState struct {
 	rSite           []string
 }
 
-func newSched(c *mc.Ctx, bodies []func()) *sched {
+func newSched(c chooser, bodies []func()) *sched {
 	s := &sched{c: c, owner: map[*zzverifrt.Mutex]int{}, lockVC: map[*zzverifrt.Mutex][]int{}, vars: map[uintptr]*varState{}, events: make(chan event)}
 	n := len(bodies)
 	for i, b := range bodies {
